@@ -84,7 +84,7 @@ func hessPart(s *S, ilo, ihi int) M {
 
 func genDgehrd(g *vlib.G) {
 	lim := vlib.Pick(g, 6, 10)
-	profs := profSet(g.Thorough(), 3)
+	profs := profSet(g.Thorough(), 5)
 	type cfg struct {
 		n, ilo, ihi int
 		p           prof
@@ -364,7 +364,7 @@ func genDhseqr(g *vlib.G) {
 	}
 	var plan []cfg
 	lim := vlib.Pick(g, 6, 10)
-	profs := profSet(g.Thorough(), 3)
+	profs := profSet(g.Thorough(), 5)
 	for n := 0; n <= lim; n++ {
 		for _, p := range profs {
 			plan = append(plan, cfg{n, p, nsFamilies})
@@ -556,7 +556,7 @@ func genDgeev(g *vlib.G) {
 	}
 	var plan []cfg
 	lim := vlib.Pick(g, 6, 10)
-	profs := profSet(g.Thorough(), 3)
+	profs := profSet(g.Thorough(), 5)
 	for n := 0; n <= lim; n++ {
 		for _, p := range profs {
 			plan = append(plan, cfg{n, p, nsFamilies})
